@@ -87,3 +87,43 @@ fn c04_tree_f32_invalid_weight_rejected() {
     kani::assert(r == Err(Error::InvalidWeight), "NaN / negative weight is rejected with InvalidWeight");
     kani::assert((t.get(0).to_bits(), t.get(1).to_bits(), t.len()) == before, "a rejected operation leaves the tree unchanged");
 }
+
+// ---------------------------------------------------------------- rand's integer range samplers (ASSUMED by the Verus units)
+// The Verus proofs of C08/C10 assume `rng.random_range(0..total)` returns `0 <= t < total` and `Uniform::new(lo, hi)`
+// succeeds for lo < hi with `sample` returning `lo <= t < hi`.  Discharged here against rand's REAL code
+// (Canon's method: loop-free, so all (low, high) x all words is complete; Lemire's rejection loop in `Uniform::sample`:
+// one iteration - the loop carries no state, every iteration draws a fresh word).
+macro_rules! random_range_contract {
+    ($name:ident, $uname:ident, $T:ty) => {
+        #[kani::proof]
+        fn $name() {
+            use rand::RngExt;
+            let low: $T = kani::any(); let high: $T = kani::any();
+            kani::assume(low < high);
+            let mut rng = super::rngs::WordsRng::<4>::any();
+            let t: $T = rng.random_range(low..high);
+            kani::cover!(low == 0 && t == high - 1, "largest target reachable");
+            kani::assert(low <= t && t < high, "random_range(low..high) inside [low, high)");
+            kani::assert(rng.i <= 4, "at most two draws of the sample type");
+        }
+        #[kani::proof]
+        #[kani::unwind(1)]
+        fn $uname() {
+            use rand::distr::{Distribution, Uniform};
+            let low: $T = kani::any(); let high: $T = kani::any();
+            let u = Uniform::<$T>::new(low, high);
+            kani::assert(u.is_ok() == (low < high), "Uniform::new(low, high) is Ok iff low < high");
+            if let Ok(u) = u {
+                let mut rng = super::rngs::WordsRng::<4>::any();
+                let t: $T = u.sample(&mut rng);
+                kani::cover!(t == high - 1, "largest value reachable");
+                kani::cover!(t == low, "smallest value reachable");
+                kani::assert(low <= t && t < high, "Uniform(low, high).sample inside [low, high)");
+            }
+        }
+    };
+}
+random_range_contract!(rand_random_range_u8, rand_uniform_sample_u8, u8);
+random_range_contract!(rand_random_range_u16, rand_uniform_sample_u16, u16);
+random_range_contract!(rand_random_range_i8, rand_uniform_sample_i8, i8);
+random_range_contract!(rand_random_range_i16, rand_uniform_sample_i16, i16);
